@@ -54,6 +54,16 @@ fn error_from_pair(pair: Pair, msg: String) -> Error {
     convert_pest_error(pest_error)
 }
 
+/// The grammar accepts integer literals of any length; only those that fit in an `i64` can be
+/// turned into a value.
+fn integers_fit(pair: &Pair) -> bool {
+    pair.clone()
+        .into_inner()
+        .flatten()
+        .chain(std::iter::once(pair.clone()))
+        .all(|p| p.as_rule() != Rule::IntegerLiteral || p.as_str().parse::<i64>().is_ok())
+}
+
 /// Parses the provided &str into a number of Renderable items.
 pub fn parse(text: &str, options: &Language) -> Result<Vec<Box<dyn Renderable>>> {
     let mut liquid = LiquidParser::parse(Rule::LaxLiquidFile, text)
@@ -85,6 +95,9 @@ pub fn parse_variable(text: &str) -> Result<Variable> {
         .next()
         .expect("Parsing a variable failed.");
 
+    if !integers_fit(&variable) {
+        return error_from_pair(variable, "Integer literal out of range.".to_owned()).into_err();
+    }
     Ok(parse_variable_pair(variable))
 }
 
@@ -238,6 +251,9 @@ fn parse_filter(filter: Pair, options: &Language) -> Result<Box<dyn Filter>> {
 fn parse_filter_chain(chain: Pair, options: &Language) -> Result<FilterChain> {
     if chain.as_rule() != Rule::FilterChain {
         panic!("Expected an expression with filters.");
+    }
+    if !integers_fit(&chain) {
+        return error_from_pair(chain, "Integer literal out of range.".to_owned()).into_err();
     }
 
     let mut chain = chain.into_inner();
@@ -972,8 +988,8 @@ impl<'a> TagToken<'a> {
     /// In this runtime, value refers to either a literal value or a variable.
     pub fn expect_value(mut self) -> TryMatchToken<'a, Expression> {
         match self.unwrap_value() {
-            Ok(t) => TryMatchToken::Matches(parse_value(t)),
-            Err(_) => {
+            Ok(t) if integers_fit(&t) => TryMatchToken::Matches(parse_value(t)),
+            _ => {
                 self.expected.push(Rule::Value);
                 TryMatchToken::Fails(self)
             }
@@ -983,8 +999,8 @@ impl<'a> TagToken<'a> {
     /// Tries to obtain a `Variable` from this token.
     pub fn expect_variable(mut self) -> TryMatchToken<'a, Variable> {
         match self.unwrap_variable() {
-            Ok(t) => TryMatchToken::Matches(parse_variable_pair(t)),
-            Err(_) => {
+            Ok(t) if integers_fit(&t) => TryMatchToken::Matches(parse_variable_pair(t)),
+            _ => {
                 self.expected.push(Rule::Variable);
                 TryMatchToken::Fails(self)
             }
@@ -1009,8 +1025,8 @@ impl<'a> TagToken<'a> {
     /// The value is returned as a `Value`.
     pub fn expect_literal(mut self) -> TryMatchToken<'a, Value> {
         match self.unwrap_literal() {
-            Ok(t) => TryMatchToken::Matches(parse_literal(t)),
-            Err(_) => {
+            Ok(t) if integers_fit(&t) => TryMatchToken::Matches(parse_literal(t)),
+            _ => {
                 self.expected.push(Rule::Literal);
                 TryMatchToken::Fails(self)
             }
@@ -1022,7 +1038,7 @@ impl<'a> TagToken<'a> {
     pub fn expect_range(mut self) -> TryMatchToken<'a, (Expression, Expression)> {
         let token = self.token.clone();
 
-        if token.as_rule() != Rule::Range {
+        if token.as_rule() != Rule::Range || !integers_fit(&token) {
             self.expected.push(Rule::Range);
             return TryMatchToken::Fails(self);
         }
